@@ -136,7 +136,7 @@ def prune_tree(sc):
     return sc
 
 
-def triage(prop, agg, max_report=3):
+def triage(prop, agg, max_report=3, budget=250):
     by_class = {}
     for seed, v in agg.fail:
         by_class.setdefault(v["class"], []).append((seed, v))
@@ -160,7 +160,7 @@ def triage(prop, agg, max_report=3):
             r0 = exec_scenario(sc)
             if not r0.get("violation") or r0["violation"]["class"] != vclass:
                 raise HarnessError(f"seed {seed} does not reproduce class {vclass} from its scenario (got {r0.get('violation')})")
-            small = Shrinker(exec_scenario, sc, vclass, keys=("ops",), budget=250, simplify=simplify).run()
+            small = Shrinker(exec_scenario, sc, vclass, keys=("ops",), budget=budget, simplify=simplify).run()
             small = prune_tree(small)
             r1 = exec_scenario(small)
             r2 = exec_scenario(small)
